@@ -501,6 +501,11 @@ func (css *Consensus) batchWorker() {
 			// Commit
 			if err := css.batchingState.Commit(css.ctx); err != nil {
 				logger.Errorf("error commiting batch after reaching max age: %s", err)
+				// The timer has fired and batchCurSize is not 0,
+				// so nothing would re-arm it: retry after
+				// another maxAge or the batch (and everything
+				// queued after it) would never be committed.
+				batchTimer.Reset(maxAge)
 				continue
 			}
 			logger.Debugf("batch commit (max age): %d items", batchCurSize)
